@@ -5,12 +5,48 @@
   on one line), so inputs can be sharded and replayed one line at a time.
 -/
 import Driver.Url
+import Driver.H1
+import Driver.Range
+import Driver.Cq
+import Driver.KeyValue
+import Driver.Hpack
+import Driver.Cond
+import Driver.Auth
+import Driver.Cgi
+import Driver.BackendResp
+import Driver.Gw
+import Driver.H2
+import Driver.H1Resp
+import Driver.Lifecycle
+import Driver.Dav
+import Driver.Deflate
+import Driver.Access
+import Driver.Arith
+import Driver.Server
 
 open LtVerif
 
 def dispatch (model : String) : Option (List String → String) :=
   match model with
   | "url" => some Driver.urlLine
+  | "h1" => some Driver.h1Line
+  | "range" => some Driver.rangeLine
+  | "cq" => some Driver.cqLine
+  | "kv" => some Driver.kvLine
+  | "hpack" => some Driver.hpackLine
+  | "cond" => some Driver.condLine
+  | "auth" => some Driver.authLine
+  | "cgi" => some Driver.cgiLine
+  | "beresp" => some Driver.berespLine
+  | "gw" => some Driver.gwLine
+  | "h2" => some Driver.h2Line
+  | "h1resp" => some Driver.h1respLine
+  | "life" => some Driver.lifeLine
+  | "dav" => some Driver.davLine
+  | "deflate" => some Driver.deflateLine
+  | "access" => some Driver.accessLine
+  | "arith" => some Driver.arithLine
+  | "server" => some Driver.serverLine
   | _ => none
 
 partial def loop (h : IO.FS.Stream) (out : IO.FS.Stream) (f : List String → String) : IO Unit := do
